@@ -28,9 +28,13 @@ class World:
         self.units = {}       # sym -> dict(cls, scale|None, dim)
         self.order = []       # class names in declaration order
         self.n = 0
+        self.long_names = False
 
     def fresh(self, prefix):
         self.n += 1
+        if prefix in ("B", "D") and self.long_names:
+            # type names that agree in their first 30 characters
+            return f"QuantityTypeWithAVeryLongCommonNamePrefix{prefix}{self.n}"
         return f"{prefix}{self.n}"
 
     def dim_of_class_def(self, items):
@@ -72,10 +76,10 @@ def fmt_cdef(items):
     return ";".join(f"c:{c}^{e}" for c, e in items) if items else "-"
 
 
-def fmt_uterm(num, items, numkind="n"):
+def fmt_uterm(num, items, numkind="n", nexp=1):
     parts = []
     if num is not None:
-        parts.append(f"{numkind}:{rat(num)}^1")
+        parts.append(f"{numkind}:{rat(num)}^{nexp}")
     parts += [f"u:{u}^{e}" for u, e in items]
     return ";".join(parts) if parts else "-"
 
@@ -88,6 +92,7 @@ class HistGen:
                  refless_derived=0.0, split_items=0.0, alias=0.12):
         self.rng = rng
         self.w = World()
+        self.w.long_names = rng.random() < .3
         self.with_invalid = with_invalid
         self.max_exp = max_exp
         self.simple_derived = simple_derived
@@ -188,6 +193,11 @@ class HistGen:
             # the defining quantity itself gets quantised: stay on the grid
             k = Fraction(rng.choice([2, 3, 8, 1000, 1024])) * quantum / u["scale"]
         sym = w.fresh("u")
+        if rng.random() < .15:
+            # symbols whose characters have compatibility / canonical
+            # equivalents (OHM SIGN, ANGSTROM SIGN, KELVIN SIGN, a decomposed
+            # letter, a ligature): a symbol is an opaque string
+            sym = rng.choice(["\u2126", "\u212b", "\u212a", "u\u0308", "\ufb01", "\u00b5\u2126"]) + sym
         op = ["new_unit", u["cls"], sym, "qty", rat(k), s, MODE]
         w.units[sym] = dict(cls=u["cls"], scale=k * u["scale"], dim=u["dim"])
         w.classes[u["cls"]]["units"].append(sym)
@@ -269,7 +279,12 @@ class HistGen:
                     else:
                         split.append((u, e))
                 items = split
-            scale = num if num is not None else Fraction(1)
+            # the numeric item may carry an exponent of its own (10^6, 2^10, 8^-1)
+            nexp = 1
+            if num is not None and force_kind is None and rng.random() < .3:
+                num = Fraction(rng.choice([2, 10, 8, 3, 60]))
+                nexp = rng.choice([-3, -2, -1, 2, 3, 6, 10])
+            scale = num ** nexp if num is not None else Fraction(1)
             for u, e in items:
                 scale *= w.units[u]["scale"] ** e
             if rng.random() < .5:
@@ -279,7 +294,7 @@ class HistGen:
             kind = "n"
             if num is not None and (force_kind or rng.random() < .4):
                 kind = "i" if num.denominator == 1 else "f"
-            op = ["new_unit", cls, sym, "term", fmt_uterm(num, items, kind)]
+            op = ["new_unit", cls, sym, "term", fmt_uterm(num, items, kind, nexp)]
             w.units[sym] = dict(cls=cls, scale=scale, dim=w.classes[cls]["dim"])
             w.classes[cls]["units"].append(sym)
             return dict(op=op, expect="ok", kind="term-unit", new_sym=sym)
